@@ -4,6 +4,14 @@ import json, os, subprocess
 V = os.path.dirname(os.path.dirname(os.path.abspath(__file__)))
 
 CHECKS = {
+ "C03": dict(cat="model_checking", ref="§6 C03",
+   technique="implementation-shaped TLA+ spec Downstream.tla (three critical sections of ReadDataPoints, alias tables, queue) model-checked by TLC; environment projections replayed on a real downstream against the in-memory broker; traces judged by the TLA+ monitor MonC03",
+   text="Design: OnceEach, InOrderSingleReader, ResolvedRight (alias forms incl. pre-registered and never-announced aliases) hold over all chunk sequences up to 3 chunks x 2 upstreams x 2 data ids x full/alias forms with arbitrary read timing. Code: TLC-simulated broker sequences (full/alias switch-over at any point, bogus aliases, pre-registered ids) and metadata from two source nodes are replayed; the k-th read must equal the k-th chunk sent (sequence number, points with checksums, upstream info, data ids) or be an error for a bogus alias; metadata per source in order with acks.",
+   note="Broker never guesses an unannounced alias (step skipped); no link failure in this property's families; queue never above 8 outstanding items."),
+ "C04": dict(cat="model_checking", ref="§6 C04",
+   technique="Downstream.tla (ack buffers, flushAck, final flush on Close, resume) model-checked by TLC; scripts incl. a cut/resume family replayed on a real downstream; traces judged by the TLA+ monitor MonC04",
+   text="Design: AckIdsIncrease, AckAtMostOnce, AckOnlyReturned, AckAllAtClose, alias injectivity, AnnounceAtMostOnce/AllAtClose, NoAckAfterClose over all interleavings of reads, ack ticks and Close. Code: every DownstreamChunkAck at the broker is folded by the monitor: ids strictly increasing (from 1 without faults), each read result acknowledged at most once / exactly once after a nil Close (also across a resume), announcements functional and injective with pre-registered ids, nothing after the close request.",
+   note="Reads concurrent with Close are outside the judged obligations (weaker reading); ack flush interval 20 ms (250 ms in the resume family)."),
  "C02": dict(cat="model_checking", ref="§6 C02",
    technique="Upstream.tla with link failures, redial, resume (conflict-then-ok), reliable retransmission model-checked by TLC; environment projections of TLC behaviours with 1-2 failures replayed on a real reliable upstream; traces judged by the TLA+ monitor MonC02",
    text="Design: every position of 1 (quick) / 2 (thorough) link failures relative to writes, cuts, sender goroutines, acks in flight, resume and retransmission is enumerated; a stored chunk leaves the store only after its result, and every cut chunk has reached the broker whenever the system is quiescent and healthy. Code: fault scripts from TLC simulation run against the in-memory broker which severs the pipe at the scripted points; the monitor checks per point: received with the original payload under the sequence number first given, never under two numbers, no sequence number reused for other content on any incarnation, unacknowledged chunks retransmitted on a later incarnation after a resume with the original stream id, close totals.",
